@@ -11,10 +11,13 @@
 //@ rewrite AD "let term_freq = term_frequencies.get_mut(*item_index).unwrap();" => "term_frequencies.incr_at(*item_index);   /* let term_freq = term_frequencies.get_mut(*item_index).unwrap(); */"
 //@ rewrite AD "*term_freq += 1;" => "/* *term_freq += 1; */"
 //@ rewrite AD "CsVec::empty(self.vocabulary.len())" => "CsVecTok::empty(self.vocabulary.len())"
-//@ rewrite AD "for (i, freq) in term_frequencies" => "for i in 0..term_frequencies.len() /*INV2*/ { let freq = term_frequencies.at(i); if freq > 0   /* for (i, freq) in term_frequencies"
-//@ rewrite AD ".filter(|(_, f)| *f > 0)" => ".filter(|(_, f)| *f > 0) */"
-//@ rewrite AD "doc_freqs[i] += 1;" => "doc_freqs.incr_at(i); }"
-//@ rewrite AD "/*INV2*/" => "invariant term_frequencies.c@.len() == self.vocabulary.n@, doc_freqs.c@.len() == self.vocabulary.n@, df0.len() == self.vocabulary.n@, sprs_term_frequencies.dim@ == self.vocabulary.n@, (sprs_term_frequencies.entries@.len() > 0 ==> sprs_term_frequencies.entries@.last().0 < i), sprs_term_frequencies.entries@ == nonzero_upto(term_frequencies.c@, i as int), (forall|j: int| 0 <= j < i ==> #[trigger] doc_freqs.c@[j] == df0[j] + (if term_frequencies.c@[j] > 0 { 1int } else { 0int })), (forall|j: int| i <= j < df0.len() ==> #[trigger] doc_freqs.c@[j] == df0[j]),"
+//@ rewrite AD "for (i, freq) in term_frequencies" => "let nz = term_frequencies.nonzero_abs(); for e in 0..nz.len() /*INV2*/   /* for (i, freq) in term_frequencies"
+//@ insert AD before "        {" : */ /* ^ the iterator chain: the filter closure is verified as `keep_pred` below, enumerate/filter plumbing is assumed in nonzero_abs */
+//@ extract KEEP from algorithms/linfa-preprocessing/src/countgrams/mod.rs anchor ".filter(|(_, f)| " lines 1 after "for (i, freq) in term_frequencies"
+//@ rewrite KEEP ".filter(|(_, f)| " => "id_bool("
+//@ rewrite AD "doc_freqs[i]" => "*doc_freqs.at_mut(i)"
+//@ insert AD after "        {" : let (i, freq) = nz[e];   /* the pair the iterator yields */ proof { lemma_hit_step(nz@, e as int); }
+//@ rewrite AD "/*INV2*/" => "invariant nz_ok(nz@, term_frequencies.c@), term_frequencies.c@.len() == self.vocabulary.n@, (forall|j: int| #![trigger occ(flat(list@), self.vocabulary.m@, j)] 0 <= j < self.vocabulary.n@ ==> term_frequencies.c@[j] == occ(flat(list@), self.vocabulary.m@, j)), doc_freqs.c@.len() == self.vocabulary.n@, df0.len() == self.vocabulary.n@, (forall|j: int| 0 <= j < df0.len() ==> 0 <= #[trigger] df0[j] < usize::MAX), sprs_term_frequencies.dim@ == self.vocabulary.n@, sprs_term_frequencies.entries@.len() == e, (forall|t: int| #![trigger sprs_term_frequencies.entries@[t]] #![trigger nz@[t]] 0 <= t < e ==> sprs_term_frequencies.entries@[t] == (nz@[t].0 as int, nz@[t].1 as int)), (forall|j: int| 0 <= j < df0.len() ==> #[trigger] doc_freqs.c@[j] == df0[j] + (if hit(nz@, e as int, j) { 1int } else { 0int })),"
 //@ insert AD before-brace "for a in 0..list.len() " : invariant term_frequencies.c@.len() == self.vocabulary.n@, self.vocabulary.wf(), forall|j: int| 0 <= j < self.vocabulary.n@ ==> #[trigger] term_frequencies.c@[j] == occ(flat(list@.subrange(0, a as int)), self.vocabulary.m@, j),
 //@ insert AD after "for a in 0..list.len() " : proof { lemma_flat_step(list@, a as int); }
 //@ insert AD before-brace "for b in 0..ngram_items.len() " : invariant a < list@.len(), ngram_items@ == list@[a as int]@, term_frequencies.c@.len() == self.vocabulary.n@, self.vocabulary.wf(), forall|j: int| 0 <= j < self.vocabulary.n@ ==> #[trigger] term_frequencies.c@[j] == occ(flat(list@.subrange(0, a as int)) + ngram_items@.subrange(0, b as int), self.vocabulary.m@, j),
@@ -57,12 +60,31 @@ proof fn lemma_occ_step(pre: Seq<ItemTok>, cur: Seq<ItemTok>, b: int, m: Map<int
     assert(s1.last() == cur[b]);
     if b + 1 == cur.len() { assert(cur.subrange(0, b + 1) =~= cur); }
 }
+pub open spec fn nz_ok(nz: Seq<(usize, usize)>, c: Seq<int>) -> bool {
+    &&& forall|t: int| 0 <= t < nz.len() ==> (#[trigger] nz[t]).0 < c.len() && c[nz[t].0 as int] == nz[t].1 && nz[t].1 > 0
+    &&& forall|a: int, b: int| #![trigger nz[a], nz[b]] 0 <= a < b < nz.len() ==> nz[a].0 < nz[b].0
+    &&& forall|j: int| 0 <= j < c.len() && #[trigger] c[j] > 0 ==> exists|t: int| 0 <= t < nz.len() && (#[trigger] nz[t]).0 == j
+}
+pub open spec fn hit(nz: Seq<(usize, usize)>, e: int, j: int) -> bool { exists|t: int| 0 <= t < e && (#[trigger] nz[t]).0 == j }
+proof fn lemma_hit_step(nz: Seq<(usize, usize)>, e: int)
+    requires 0 <= e < nz.len(),
+    ensures forall|j: int| #![trigger hit(nz, e + 1, j)] hit(nz, e + 1, j) == (hit(nz, e, j) || nz[e].0 == j),
+{
+    assert forall|j: int| #![trigger hit(nz, e + 1, j)] hit(nz, e + 1, j) == (hit(nz, e, j) || nz[e].0 == j) by {
+        if hit(nz, e, j) { let t = choose|t: int| 0 <= t < e && (#[trigger] nz[t]).0 == j; assert(0 <= t < e + 1 && nz[t].0 == j); }
+        if nz[e].0 == j { assert(0 <= e < e + 1 && nz[e].0 == j); }
+    }
+}
 pub struct DenseRow { pub c: Ghost<Seq<int>> }
 impl DenseRow {
     #[verifier::external_body] pub fn zeros(n: usize) -> (r: DenseRow) ensures r.c@.len() == n, forall|j: int| 0 <= j < n ==> #[trigger] r.c@[j] == 0 { unimplemented!() }
     #[verifier::external_body] pub fn incr_at(&mut self, j: usize) requires j < old(self).c@.len(), ensures final(self).c@ == old(self).c@.update(j as int, old(self).c@[j as int] + 1) { unimplemented!() }
+    // IndexMut: `row[j] op= v` writes through the returned reference
+    #[verifier::external_body] pub fn at_mut(&mut self, j: usize) -> (r: &mut usize) requires j < old(self).c@.len(), 0 <= old(self).c@[j as int] <= usize::MAX, ensures *r == old(self).c@[j as int], final(self).c@ == old(self).c@.update(j as int, *final(r) as int) { unimplemented!() }
     #[verifier::external_body] pub fn len(&self) -> (r: usize) ensures r == self.c@.len() { unimplemented!() }
     #[verifier::external_body] pub fn at(&self, j: usize) -> (r: usize) requires j < self.c@.len(), ensures r == self.c@[j as int] { unimplemented!() }
+    // .into_iter().enumerate().filter(keep_pred): the (index, value) pairs of the entries the filter closure keeps (keep_pred, verified: the positive ones), in increasing index order (ASSUMED of the iterator adapters)
+    #[verifier::external_body] pub fn nonzero_abs(&self) -> (r: Vec<(usize, usize)>) ensures nz_ok(r@, self.c@) { unimplemented!() }
 }
 // the (index, value) pairs of the non-zero entries among the first n, in increasing index order
 pub open spec fn nonzero_upto(c: Seq<int>, n: int) -> Seq<(int, int)> decreases n { if n <= 0 { Seq::empty() } else if c[n - 1] > 0 { nonzero_upto(c, n - 1).push((n - 1, c[n - 1])) } else { nonzero_upto(c, n - 1) } }
@@ -76,6 +98,11 @@ impl CsVecTok {
         ensures final(self).dim@ == old(self).dim@, final(self).entries@ == old(self).entries@.push((i as int, v as int)),
     { unimplemented!() }
 }
+pub fn id_bool(b: bool) -> (r: bool) ensures r == b { b }
+// the filter closure of the second loop, body extracted from /repo: keeps exactly the positive counts
+pub fn keep_pred(f: &usize) -> (r: bool) ensures r == (*f > 0) {
+/*@KEEP*/
+}
 pub struct CountVectorizerV { pub vocabulary: VocabTok }
 impl CountVectorizerV {
     // ---- analyze_document, body extracted from /repo on every run (tokenisation dropped) ----
@@ -84,9 +111,13 @@ impl CountVectorizerV {
     // exactly the items that occur goes up by one
     pub fn analyze_document(&self, list: Vec<Vec<ItemTok>>, doc_freqs_in: DenseRow) -> (r: (CsVecTok, DenseRow))
         requires self.vocabulary.wf(), doc_freqs_in.c@.len() == self.vocabulary.n@, self.vocabulary.n@ <= usize::MAX,
+            forall|j: int| 0 <= j < self.vocabulary.n@ ==> 0 <= #[trigger] doc_freqs_in.c@[j] < usize::MAX,   // document frequencies are bounded by the number of documents: no overflow
             forall|j: int| 0 <= j < self.vocabulary.n@ ==> occ(flat(list@), self.vocabulary.m@, j) <= usize::MAX,
         ensures r.0.dim@ == self.vocabulary.n@,
-            r.0.entries@ == nonzero_upto(Seq::new(self.vocabulary.n@ as nat, |j: int| occ(flat(list@), self.vocabulary.m@, j)), self.vocabulary.n@),
+            // the sparse row: exactly the positive counts, each with its column, in increasing column order
+            (forall|t: int| 0 <= t < r.0.entries@.len() ==> 0 <= (#[trigger] r.0.entries@[t]).0 < self.vocabulary.n@ && r.0.entries@[t].1 == occ(flat(list@), self.vocabulary.m@, r.0.entries@[t].0) && r.0.entries@[t].1 > 0),
+            (forall|a: int, b: int| #![trigger r.0.entries@[a], r.0.entries@[b]] 0 <= a < b < r.0.entries@.len() ==> r.0.entries@[a].0 < r.0.entries@[b].0),
+            (forall|j: int| 0 <= j < self.vocabulary.n@ && occ(flat(list@), self.vocabulary.m@, j) > 0 ==> exists|t: int| 0 <= t < r.0.entries@.len() && (#[trigger] r.0.entries@[t]).0 == j),
             r.1.c@.len() == self.vocabulary.n@,
             forall|j: int| 0 <= j < self.vocabulary.n@ ==> #[trigger] r.1.c@[j] == doc_freqs_in.c@[j] + (if occ(flat(list@), self.vocabulary.m@, j) > 0 { 1int } else { 0int }),
     {
@@ -98,6 +129,7 @@ impl CountVectorizerV {
     }
     pub fn vacuity_guard_count(&self, list: Vec<Vec<ItemTok>>, doc_freqs_in: DenseRow) -> (r: (CsVecTok, DenseRow))
         requires self.vocabulary.wf(), doc_freqs_in.c@.len() == self.vocabulary.n@, self.vocabulary.n@ <= usize::MAX,
+            forall|j: int| 0 <= j < self.vocabulary.n@ ==> 0 <= #[trigger] doc_freqs_in.c@[j] < usize::MAX,   // document frequencies are bounded by the number of documents: no overflow
             forall|j: int| 0 <= j < self.vocabulary.n@ ==> occ(flat(list@), self.vocabulary.m@, j) <= usize::MAX,
         ensures false,
     {
